@@ -137,6 +137,20 @@ CHECKS = {
    design_ref='DESIGN.md §5 C19',
    note=COMMON_NOTE + "Consensus = my transcription of Bitcoin Core's interpreter (no reference node offline); script size / opcode count / stack size limits are not modelled. "
         "Conditionals, CHECKSIG/CHECKMULTISIG, CLTV/CSV are covered by the correspondence with the Impl model only (no Impl=Spec theorem; listed deviations exist there)."),
+ 'C02': dict(
+   technique='Lean 4 theorems (soundness and completeness of the Input.verify counting loop, unbounded keys/signatures) + independent Lean consensus-style verifier compared with Transaction.verify over signing schedules and tamperings',
+   text=("Proved in Lean for the transcription of Input.verify's loop (with its try-previous-signature branch), any numbers of keys and signatures: "
+         "acceptance implies at least m strictly increasing (distinct) listed key positions each with a signature that verifies under it; no "
+         "signatures, no valid (signature, key) pair, or fewer than m keys with a valid signature imply rejection; if the S >= max(m,1) signatures are "
+         "by distinct keys stored in key order (the invariant Transaction.sign maintains) the input verifies. The Lean driver is an independent "
+         "verifier (own parser, template extraction, consensus digests of C01, strict DER, secp256k1 ECDSA, consensus m-of-n matching, hash "
+         "commitment of redeem/witness script and key to the previous output). For API-built transactions over 8 spend kinds, random signer subsets "
+         "and orders, signing spread over per-input and whole-transaction calls with repeats, then 11 kinds of single-field tampering of the object "
+         "and of the parsed serialisation (incl. corrupted / foreign / duplicated signatures at byte level): library verdict must match the "
+         "expectation, and library-accepts implies the independent verifier accepts. Found and fixed: F35 (sign() early exits), F33."),
+   design_ref='DESIGN.md §5 C02',
+   note=COMMON_NOTE + "Cryptographic residue: that a changed digest is not matched by the old signature rests on ECDSA/SHA-256. verify() trusts the input's own redeem script "
+        "(the previous output is not part of a transaction); the independent verifier is given the previous output script and amount, as a node would have them (see F25 under C10)."),
 }
 
 NOT_YET = {}
